@@ -103,21 +103,37 @@ func ErrUnwrap(err error) error {
 	return u.Unwrap()
 }
 
-// ---- context model: a tree with cancellation flags and values ----
+// ---- context model: a tree with cancellation flags, values and Done channels ----
 
-// Ctx models a derived context.  Done() returns nil: sequential code never
-// selects on it in the encoded functions.
+// Ctx models a derived context.  Done() is a real channel (closed on
+// cancellation), so selects on it behave as in Go under the scheduler.
 type Ctx struct {
 	Parent    context.Context
 	Cancelled bool
 	Key, Val  any
 	HasVal    bool
+	done      chan struct{}
+	children  []*Ctx
 }
 
 var ErrCanceled error = &Err{Msg: "context canceled"}
 
 func (c *Ctx) Deadline() (time.Time, bool) { return time.Time{}, false }
-func (c *Ctx) Done() <-chan struct{}       { return nil }
+func (c *Ctx) Done() <-chan struct{} {
+	if c.HasVal {
+		if c.Parent == nil {
+			return nil
+		}
+		return c.Parent.Done()
+	}
+	if c.done == nil {
+		c.done = make(chan struct{})
+		if c.Err() != nil {
+			close(c.done)
+		}
+	}
+	return c.done
+}
 func (c *Ctx) Err() error {
 	if c.Cancelled {
 		return ErrCanceled
@@ -137,25 +153,48 @@ func (c *Ctx) Value(key any) any {
 	return nil
 }
 
+// cancel marks the context and everything derived from it.
+func (c *Ctx) cancel() {
+	if !c.HasVal {
+		if c.Cancelled {
+			return
+		}
+		c.Cancelled = true
+		if c.done != nil {
+			close(c.done)
+		}
+	}
+	for _, k := range c.children {
+		k.cancel()
+	}
+}
+
+func ctxDerive(parent context.Context, c *Ctx) *Ctx {
+	if p, ok := parent.(*Ctx); ok {
+		p.children = append(p.children, c)
+	}
+	return c
+}
+
 //verif:stub context.WithCancel
 func CtxWithCancel(parent context.Context) (context.Context, context.CancelFunc) {
-	c := &Ctx{Parent: parent}
-	return c, func() { c.Cancelled = true }
+	c := ctxDerive(parent, &Ctx{Parent: parent})
+	return c, c.cancel
 }
 
 //verif:stub context.WithTimeout
 func CtxWithTimeout(parent context.Context, _ time.Duration) (context.Context, context.CancelFunc) {
-	c := &Ctx{Parent: parent}
-	return c, func() { c.Cancelled = true }
+	c := ctxDerive(parent, &Ctx{Parent: parent})
+	return c, c.cancel
 }
 
 //verif:stub context.WithDeadline
 func CtxWithDeadline(parent context.Context, _ time.Time) (context.Context, context.CancelFunc) {
-	c := &Ctx{Parent: parent}
-	return c, func() { c.Cancelled = true }
+	c := ctxDerive(parent, &Ctx{Parent: parent})
+	return c, c.cancel
 }
 
 //verif:stub context.WithValue
 func CtxWithValue(parent context.Context, key, val any) context.Context {
-	return &Ctx{Parent: parent, Key: key, Val: val, HasVal: true}
+	return ctxDerive(parent, &Ctx{Parent: parent, Key: key, Val: val, HasVal: true})
 }
